@@ -3,7 +3,7 @@
       module / impl-block fns, all attributes of trait methods) are mirrored on the generated methods *)
 From Coq Require Import List String Ascii Bool.
 From Entrait Require Import Tok Syn Opts Split FnParams Convert Codegen Expand Proj Proj2 Examples.
-From Entrait.Proofs Require Import Base Shapes NonVac PC12 PC18.
+From Entrait.Proofs Require Import Base Shapes NonVac PC12 PC18 Cfg.
 Import ListNotations.
 Local Open Scope list_scope.
 
@@ -66,6 +66,23 @@ Theorem c18_methods : forall o ti mode subs lit v name tg colon supers im fns0 s
   map (fun '(a, _, _) => a) (impl_fns ib) = map (filter is_cfg_attr) (map (fun '(a, _, _, _) => a) src).
 Proof. exact c18_methods_cfg. Qed.
 Print Assumptions c18_methods.
+
+(** what that means in a build: whatever truth values the build assigns to cfg predicates ([holds], arbitrary), the
+    k-th trait method and the k-th delegating method are compiled exactly when the k-th function of the module /
+    impl block is ([enabled]: every [cfg(p)] attribute on the item holds) — a cfg-disabled function leaves no
+    dangling method behind, an enabled one loses none. *)
+Theorem c18_no_dangling_method : forall holds o ti mode subs lit v name tg colon supers im fns0 src tref ind tg' mode' subs' ib,
+  List.length fns0 = List.length src ->
+  gen_impl_block o tref ind tg' im mode' subs' (with_cfg_attrs fns0 src) = Ok ib ->
+  map (enabled holds) (map fst (trait_sigs (gen_trait_def o ti mode subs lit v name tg colon supers (with_cfg_attrs fns0 src) im)))
+    = map (enabled holds) (map (fun '(a, _, _, _) => a) src) /\
+  map (enabled holds) (map (fun '(a, _, _) => a) (impl_fns ib)) = map (enabled holds) (map (fun '(a, _, _, _) => a) src).
+Proof.
+  intros holds o ti mode subs lit v name tg colon supers im fns0 src tref ind tg' mode' subs' ib Hl Hg.
+  destruct (c18_methods_cfg o ti mode subs lit v name tg colon supers im fns0 src tref ind tg' mode' subs' ib Hl Hg) as [-> ->].
+  split; apply map_enabled_filter.
+Qed.
+Print Assumptions c18_no_dangling_method.
 
 (** trait: method attributes are mirrored on the re-emitted trait and on the delegating impl. *)
 Theorem c18_trait : forall v attr h t items,
